@@ -30,6 +30,18 @@ func runC11(e *Env) error {
 		"{% for c in [7, 8] %}{% set d = c %}{% endfor %}" +
 		"{% macro cm() %}CM{% endmacro %}{% block cb %}CB{% endblock %}"
 	failing := "{{ nosuchfn() }}"
+	// the same included template written with its assignments in other places (taken else branch, loop body, nested if)
+	childVariants := []string{
+		child,
+		"<" + view() + ">" + "{% if false %}never{% else %}{% set a = 'child-a' %}{% set b = 'child-b' %}{% endif %}{% for c in [7, 8] %}{% set d = c %}{% endfor %}{% block cb %}CB{% endblock %}",
+		"<" + view() + ">" + "{% for q in [1] %}{% if q %}{% set a = 'child-a' %}{% endif %}{% set zz = q %}{% endfor %}{% if a %}{% set b = 'child-b' %}{% else %}{% set b = 'child-b2' %}{% endif %}{% set d = 1 %}{% set c = 2 %}{% block cb %}CB{% endblock %}",
+		"<" + view() + ">" + "{% if true %}{% if false %}x{% elseif false %}y{% else %}{% set d = 'deep' %}{% set a = 1 %}{% set b = 2 %}{% set c = 3 %}{% endif %}{% endif %}{% block cb %}CB{% endblock %}",
+	}
+	// only text, prints and conditionals at the top level — the assignments hide in branches of conditionals
+	childVariants = append(childVariants,
+		"<"+view()+">"+"{% if false %}n{% else %}{% set a = 'child-a' %}{% set b = 'child-b' %}{% set c = 1 %}{% set d = 2 %}{% endif %}CB",
+		"<"+view()+">"+"{% if false %}n{% elseif true %}{% if true %}{% set a = 'x' %}{% set zz = 1 %}{% endif %}{% set b = 'y' %}{% else %}m{% endif %}{% if a %}{% set c = 1 %}{% set d = 2 %}{% endif %}CB")
+	nestedMissing := "<in>{% include 'nosuch-inner' %}</in>"
 	n := e.N(1200, 60000)
 	for i := 0; i < n && !r.Full(); i++ {
 		ctx := map[string]any{}
@@ -60,7 +72,11 @@ func runC11(e *Env) error {
 		sandboxed := rg.Intn(8) == 0
 		target := "'child'"
 		missing, fails := false, false
-		switch rg.Intn(10) {
+		nested := false
+		switch rg.Intn(11) {
+		case 10:
+			target = "'nestedmissing'"
+			nested = true
 		case 0:
 			target = "'chi' ~ 'ld'"
 		case 1:
@@ -102,7 +118,7 @@ func runC11(e *Env) error {
 		default:
 			main = pre.String() + probes + "{% include 'mid' %}" + probes
 		}
-		tpls := map[string]string{"main": main, "child": child, "failing": failing, "mid": inc}
+		tpls := map[string]string{"main": main, "child": pick(rg, childVariants), "failing": failing, "mid": inc, "nestedmissing": nestedMissing}
 		c := &Case{Templates: tpls, Main: "main", Ctx: ctx, FailAt: -1}
 		if sandboxed {
 			c.Policy = &PolicySpec{Filters: []string{"upper", "default", "escape"}, Functions: []string{"range", "cm", "mk", "nosuchfn"}}
@@ -152,6 +168,11 @@ func runC11(e *Env) error {
 				Replay: map[string]any{"kind": "render", "templates": tpls, "main": "main", "ctx": ctx, "want": want, "got": im.Out, "class": im.Class, "msg": im.Msg}})
 		}
 		switch {
+		case nested:
+			// the included template exists; the template IT includes does not: an error, with or without `ignore missing`
+			if im.Class != "notFound" {
+				bad("nested-missing-swallowed", "ErrTemplateNotFound")
+			}
 		case fails:
 			if im.Class == "" {
 				bad("failure-swallowed", "an error")
